@@ -193,7 +193,7 @@ Css ==
      ELSE /\ unbound' = unbound \cup Unbound(Head1.e)
           /\ LET v == Eval(Head1.e, Env) IN
              IF IsBad(v) THEN Bad(v)
-             ELSE IF v.t = "undef" THEN Fail
+             ELSE IF v.t = "undef" THEN NoClaim
              ELSE IF ~Printable(v) THEN NoClaim
              ELSE Emit(ToText(v) \o "-" \o Head1.suffix, Rest)
 
@@ -256,7 +256,7 @@ ForEnter ==
   /\ unbound' = unbound \cup Unbound(Head1.e)
   /\ LET v == Eval(Head1.e, Env) IN
      IF IsBad(v) THEN /\ status' = (IF v.t = "err" THEN "err" ELSE "unspec") /\ ctl' = <<>> /\ UNCHANGED act
-     ELSE IF v.t # "list" THEN status' = "err" /\ ctl' = <<>> /\ UNCHANGED act
+     ELSE IF v.t # "list" THEN status' = "unspec" /\ ctl' = <<>> /\ UNCHANGED act   \* ill-typed: C06's domain
      ELSE IF Len(v.v) = 0 THEN
           /\ status' = status /\ UNCHANGED act
           /\ ctl' = (IF Head1.empty.has THEN Block("ifempty", Head1.empty.body) ELSE <<>>) \o Rest
@@ -319,9 +319,9 @@ CallBegin ==
                    [] Head1.data = "expr" -> Eval(Head1.de, Env)
                    [] OTHER -> M(EmptyF) IN
      /\ unbound' = unbound \cup (IF Head1.data = "expr" THEN Unbound(Head1.de) ELSE {})
-     /\ IF Head1.tmpl \notin DOMAIN prog.bundle THEN status' = "err" /\ ctl' = <<>> /\ UNCHANGED pend
+     /\ IF Head1.tmpl \notin DOMAIN prog.bundle THEN status' = "unspec" /\ ctl' = <<>> /\ UNCHANGED pend
         ELSE IF IsBad(base) THEN /\ status' = (IF base.t = "err" THEN "err" ELSE "unspec") /\ ctl' = <<>> /\ UNCHANGED pend
-        ELSE IF base.t # "map" THEN status' = "err" /\ ctl' = <<>> /\ UNCHANGED pend
+        ELSE IF base.t # "map" THEN status' = "unspec" /\ ctl' = <<>> /\ UNCHANGED pend
         ELSE /\ status' = status
              /\ pend' = Append(pend, [tmpl |-> Head1.tmpl, data |-> base.v])
              /\ ctl' = Head1.params \o <<[k |-> "docall"]>> \o Rest
@@ -374,7 +374,7 @@ PluralSelect ==
   /\ unbound' = unbound \cup Unbound(Head1.e)
   /\ LET v == Eval(Head1.e, Env) IN
      IF IsBad(v) THEN status' = (IF v.t = "err" THEN "err" ELSE "unspec") /\ ctl' = <<>>
-     ELSE IF v.t # "int" THEN status' = "err" /\ ctl' = <<>>
+     ELSE IF v.t # "int" THEN status' = "unspec" /\ ctl' = <<>>
      ELSE /\ status' = status
           /\ ctl' = (IF \E i \in 1..Len(Head1.cases) : Head1.cases[i].n = v.v
                      THEN Head1.cases[CHOOSE i \in 1..Len(Head1.cases) :
